@@ -156,6 +156,122 @@ def observe_run(case):
     return obs
 
 
+# ---------------------------------------------------------------------------------------------
+# op = "run" through the tasks of valjean.cosette.code: the command lines are composed by the task, the
+# executable (cmake / git) is a script that counts its invocations and behaves, at the n-th one, like
+# the n-th command of the plan
+
+_TOOL = """#!/bin/sh
+d='%s'
+n=$(($(cat "$d/count" 2>/dev/null || echo 0) + 1))
+echo $n > "$d/count"
+if [ -f "$d/cmd-$n.sh" ]; then exec sh "$d/cmd-$n.sh"; fi
+exit 0
+"""
+
+
+def _log_tokens(path, stream):
+    try:
+        with open(path, 'rb') as f:
+            data = f.read()
+    except OSError:
+        return [[-1, -1]]
+    return [[int(m.group(2)), int(m.group(3))] for m in _TOKEN.finditer(data) if m.group(1).decode() == stream]
+
+
+def observe_tool(case):
+    """One BuildTask / CheckoutTask whose tool follows case['cmds'] (the plan, by invocation number).  The observation
+    carries `invoked`: the number of times the tool was started; the command list judged by TLC is the plan up to there."""
+    from valjean.cosette.code import BuildTask, CheckoutTask
+    from valjean.cosette.env import Env
+    from valjean.cosette.task import TaskStatus
+    root = _scratch('c19t')
+    aux = os.path.join(root, '.aux')
+    os.makedirs(aux)
+    out_root = os.path.join(root, 'out')
+    config = _config(out_root)
+    plan = case['cmds']
+    tool = os.path.join(aux, 'tool')
+    if plan and plan[0]['exit'] is None:
+        tool = _cli(1, plan[0], aux)[0]
+    else:
+        with open(tool, 'w') as f:
+            f.write(_TOOL % aux)
+        os.chmod(tool, 0o755)
+        for i, c in enumerate(plan, 1):
+            with open(os.path.join(aux, 'cmd-%d.sh' % i), 'w') as f:
+                f.write(_cli(i, c, aux)[2] + '\n')
+    targets = [['x', 'y', 'z'][j] for j in range(case['targets'])] if case['targets'] >= 0 else None
+    if case['via'] == 'build':
+        src = os.path.join(root, 'src')
+        os.makedirs(src)
+        task = BuildTask('task', src, targets=targets, configure_flags=case.get('cflags'), build_flags=case.get('bflags'))
+        task.CMAKE = tool
+        log_key = 'build_log'
+    else:
+        task = CheckoutTask('task', repository=os.path.join(root, 'repo'), flags=case.get('cflags'), ref=case.get('ref'))
+        task.GIT = tool
+        log_key = 'checkout_log'
+    obs = dict(status='NONE', raised=False, escaped=False, rcs=[], exc='')
+    if case['mode'] == 'direct':
+        try:
+            env_up, status = task.do(Env(), config)
+            obs['status'] = TaskStatus(status).name
+            if log_key not in env_up['task']:
+                obs['status'], obs['exc'] = 'NONE', 'no %s in the result' % log_key
+        except Exception as ex:  # pylint: disable=broad-except
+            obs['raised'] = True
+            obs['exc'] = type(ex).__name__
+    else:
+        from valjean.cosette.depgraph import DepGraph
+        from valjean.cosette.scheduler import Scheduler
+        from valjean.cosette.backends.queue import QueueScheduling
+        env = Env()
+        try:
+            graph = DepGraph.from_dependency_dictionary({task: []})
+            Scheduler(hard_graph=graph, backend=QueueScheduling(n_workers=1)).schedule(config=config, env=env)
+        except Exception as ex:  # pylint: disable=broad-except
+            obs['escaped'] = True
+            obs['exc'] = type(ex).__name__
+        entry = env.get('task', {})
+        try:
+            obs['status'] = TaskStatus(entry.get('status')).name
+        except ValueError:
+            obs['status'] = 'NONE'
+        if log_key not in entry:
+            obs['raised'] = True
+    try:
+        with open(os.path.join(aux, 'count')) as f:
+            invoked = int(f.read().strip() or 0)
+    except OSError:
+        invoked = 0
+    obs['invoked'] = invoked
+    ran = _ran(case, obs)
+    obs['rcs'] = [c['exit'] for c in ran if c['exit'] is not None]
+    log = os.path.join(out_root, '.log', 'task.log')
+    obs['out'] = _log_tokens(log, 'O')
+    obs['err'] = _log_tokens(log, 'E')
+    shutil.rmtree(root, ignore_errors=True)
+    return obs
+
+
+def _ran(case, obs):
+    """The commands of a tool case as far as the task got: the plan up to the number of invocations (a tool that
+    cannot be started is the first command and was not counted)."""
+    plan = case['cmds']
+    if plan and plan[0]['exit'] is None:
+        return plan[:1]
+    k = obs['invoked']
+    return [plan[i] if i < len(plan) else dict(exit=0, nout=0, nerr=0, how='') for i in range(k)]
+
+
+def _judged(case, obs):
+    """The case as TLC judges it: for tool cases the command list is what the task actually ran."""
+    if case.get('via', 'run') == 'run':
+        return case
+    return dict(case, cmds=_ran(case, obs))
+
+
 def _state_to_run_case(st):
     cmds = [dict(exit=None if isinstance(c['exit'], MV) else int(c['exit']), nout=c['nout'], nerr=c['nerr'], how='missing')
             for c in st['cmds']]
@@ -188,7 +304,8 @@ def _run_agrees(st, obs):
 def run_key(case, clauses):
     first_bad = next((c for c in case['cmds'] if c['exit'] != 0), None)
     shape = 'all-zero' if first_bad is None else 'cannot-start' if first_bad['exit'] is None else 'nonzero'
-    return 'C19/run/%s/%s/%s' % (case['mode'], shape, '+'.join(sorted(set(clauses))))
+    via = case.get('via', 'run')
+    return 'C19/%s/%s/%s/%s' % (via, case['mode'], shape, '+'.join(sorted(set(clauses))))
 
 
 # ---------------------------------------------------------------------------------------------
@@ -304,6 +421,7 @@ def names_key(names, obs, valid, clauses):
 
 def _json_case(cid, case, obs):
     if case['op'] == 'run':
+        case = _judged(case, obs)
         return dict(id=cid, op='run', mode=case['mode'],
                     cmds=[dict(exit=[] if c['exit'] is None else [c['exit']], nout=c['nout'], nerr=c['nerr']) for c in case['cmds']],
                     obs=dict(status=obs['status'], raised=obs['raised'], escaped=obs['escaped'], rcs=obs['rcs'],
@@ -336,13 +454,15 @@ def tlc_verdict(records, wd, ctx=None, name='RunCmdTrace'):
 
 
 def _observe(case):
-    return observe_run(case) if case['op'] == 'run' else observe_names(case['names'])
+    if case['op'] == 'run':
+        return observe_run(case) if case.get('via', 'run') == 'run' else observe_tool(case)
+    return observe_names(case['names'])
 
 
 def replay_case(case):
     import core
     core.use_repo()
-    obs = observe_run(case) if case['op'] == 'run' else observe_names(case['names'])
+    obs = _observe(case)
     verdict = tlc_verdict([(1, case, obs)], tlc.workdir('c19r'))
     if not verdict:
         return True, 'all clauses of RunCmd.tla hold on the observation %s' % (obs,)
@@ -374,7 +494,9 @@ def run_c19(ctx):
              'tokens per stream) called directly and under the scheduler, all lists of task names over the atoms a . / NUL stdout -- '
              'is executed on real RunTask objects with sh -c commands in a scratch output root and compared with the TLC state; '
              'code->spec: seeded random longer command lists (more statuses, signals, three kinds of unstartable executables) and '
-             'name lists over a larger alphabet are executed and judged by TLC (RunCmdTrace.tla). distinct_nontrivial counts '
+             'name lists over a larger alphabet are executed and judged by TLC (RunCmdTrace.tla); so are BuildTask and CheckoutTask '
+             '(valjean/cosette/code.py) with a scripted cmake / git that counts its invocations and exits as the plan says: the '
+             'command list judged is the plan up to the number of invocations, targets / flags / ref vary. distinct_nontrivial counts '
              'distinct cases with at least one non-zero status, unstartable command or invalid / colliding name.')
     ctx.assume('single task per scheduler run (no interleaving claim); sh and printf behave as POSIX says')
     ctx.assume('stderr: the commands\' tokens must appear in order; the `$ cmd` echo lines are extra (DESIGN 8.1)')
@@ -475,6 +597,15 @@ def run_c19(ctx):
             else:
                 cmds.append(dict(exit=rng.choice(codes), nout=rng.randint(0, 3), nerr=rng.randint(0, 3), how=''))
         cases.append(dict(op='run', mode='sched' if rng.random() < 0.3 else 'direct', cmds=cmds))
+    for _ in range(ctx.pick(700, 8000)):
+        cmds = []
+        for _j in range(rng.randint(0, 5)):
+            cmds.append(dict(exit=rng.choice(codes), nout=rng.randint(0, 2), nerr=rng.randint(0, 2), how=''))
+        if rng.random() < 0.08:
+            cmds[:1] = [dict(exit=None, nout=0, nerr=0, how=rng.choice(['missing', 'dir', 'noexec']))]
+        cases.append(dict(op='run', via=rng.choice(['build', 'build', 'checkout']), mode='sched' if rng.random() < 0.3 else 'direct',
+                          cmds=cmds, targets=rng.choice([-1, 0, 1, 2, 3]), cflags=rng.choice([None, [], ['-DA=1']]),
+                          bflags=rng.choice([None, [], ['--', '-j2']]), ref=rng.choice([None, 'v1'])))
     atoms = list(ATOMS)
     n_names = ctx.pick(600, 6000)
     for _ in range(n_names):
